@@ -127,7 +127,7 @@ def check(run, replay=None):
         docfiles["responses"] = run.path("doc-responses.json")
         run.sh([vh, "param-materialise", "-cases", run.path("rrows.ndjson"), "-out", docfiles["responses"]])
     if "models" in need:
-        gm = run.tlc("GenModels", "GenModels", workers=6, timeout=900)
+        gm = run.tlc("GenModels", "GenModels", workers=10, timeout=3000, cache=True)
         write_ndjson(run.path("mrows.ndjson"), [dict(name=e["name"], schema=e["schema"]) for t, e in gm["emitted"] if t == "CASE"])
         docfiles["models"] = run.path("doc-models.json")
         run.sh([vh, "model-materialise", "-defs", run.path("mrows.ndjson"), "-out", docfiles["models"]])
